@@ -51,7 +51,10 @@ Definition row_vals (ds : list string) (a : asg) : list Z :=
   map (fun d => match aget a d with Some v => v | None => (-1)%Z end) ds.
 
 Definition orow_eqb (a b : list Z * N) : bool := zlist_eqb (fst a) (fst b) && N.eqb (snd a) (snd b).
-Definition rrow_eqb (a b : list Z * option N) : bool := zlist_eqb (fst a) (fst b) && oreg_eqb (snd a) (snd b).
+Definition rrow := (list Z * option N * option (Z * Z))%type.
+Definition rrow_eqb (a b : rrow) : bool :=
+  zlist_eqb (fst (fst a)) (fst (fst b)) && oreg_eqb (snd (fst a)) (snd (fst b)) && ots_eqb (snd a) (snd b).
+Definition rrow_of (ds : list string) (r : rec) : rrow := (row_vals ds (rvals r), rregion r, rts r).
 
 (* ---- history case: (ops, observed outcome codes, observed tables, observed overlap tables) ---- *)
 Definition elem_deps (c : jconf) (n : string) : list string :=
@@ -59,14 +62,14 @@ Definition elem_deps (c : jconf) (n : string) : list string :=
 Definition elem_req (c : jconf) (n : string) : list string :=
   match find_elem (ju c) n with Some e => ereq e | None => [] end.
 
-Definition hcase := (list op * list N * list (string * list (list Z * option N)) * list (string * list (list Z * N)))%type.
+Definition hcase := (list op * list N * list (string * list rrow) * list (string * list (list Z * N)))%type.
 
 Definition chk_hist (c : jconf) (env : N -> list N) (hc : hcase) : bool :=
   let '(h, outs, tabs, ovs) := hc in
   let s := run_hist c env h st0 in
   nlist_eqb (map outc_code (run_outs c env h st0)) outs
   && forallb (fun nt => set_eqb rrow_eqb
-                          (map (fun r => (row_vals (elem_deps c (fst nt)) (rvals r), rregion r)) (tget (recs s) (fst nt)))
+                          (map (rrow_of (elem_deps c (fst nt))) (tget (recs s) (fst nt)))
                           (snd nt)) tabs
   && forallb (fun nt => set_eqb orow_eqb
                           (map (fun kp => (row_vals (elem_req c (fst nt)) (fst kp), snd kp)) (oget (ovl s) (fst nt)))
@@ -162,4 +165,64 @@ Definition chk_elem (c : jconf) (ec : ecase) : bool :=
        | Some f => existsb (fun fm => String.eqb (fst fm) f && slist_eqb (snd fm) members) (jfams c)
        | None => true
        end
+  end.
+
+(* ---- record queries: (state, element, observation); observation code 0 = rows, 1 = crash, 2 = invalid ---- *)
+Definition rcase := (st * string * (N * list rrow))%type.
+
+Definition fqrecords (c : jconf) (ov : N -> N -> bool) (s : st) (e : elem) : rres :=
+  match closure (ju c) (deps e) with
+  | GOk ns =>
+    match frun_plan c ov s (full_plan c ns ++ [e]) ns with
+    | QOk rows => ROkRecs (recs_of_rows (recs s) e rows)
+    | QCrash => RCrash
+    | QInvalid => RInvalid
+    | QIncomplete => RIncomplete
+    end
+  | _ => RNoGroup
+  end.
+
+Definition chk_records (c : jconf) (ov : N -> N -> bool) (rc : rcase) : bool :=
+  let '(s, n, (code, rows)) := rc in
+  match find_elem (ju c) n with
+  | None => false
+  | Some e =>
+    match fqrecords c ov s e with
+    | ROkRecs l => N.eqb code 0 && set_eqb rrow_eqb (map (rrow_of (deps e)) l) rows
+    | RCrash => N.eqb code 1
+    | RInvalid => N.eqb code 2
+    | _ => false
+    end
+  end.
+
+Definition rres_eqb (e : elem) (a b : rres) : bool :=
+  match a, b with
+  | ROkRecs l, ROkRecs m => set_eqb rrow_eqb (map (rrow_of (deps e)) l) (map (rrow_of (deps e)) m)
+  | RCrash, RCrash => true
+  | RInvalid, RInvalid => true
+  | _, _ => false
+  end.
+
+(* the pruned evaluation against the model's definition `qrecords` *)
+Definition chk_rfast (c : jconf) (ov : N -> N -> bool) (rc : rcase) : bool :=
+  let '(s, n, _) := rc in
+  match find_elem (ju c) n with
+  | None => false
+  | Some e => rres_eqb e (fqrecords c ov s e) (qrecords c ov s e)
+  end.
+
+(* ---- temporal configuration: (element, temporal family or "") and explicit temporal joins (a, b, observed code:
+        2 = InvalidQueryError "not necessary", 0 = accepted) ---- *)
+Definition chk_telem (c : jconf) (tc : string * string) : bool :=
+  match find_elem (ju c) (fst tc) with
+  | None => false
+  | Some e => String.eqb (match etemporal e with Some f => f | None => "" end) (snd tc)
+  end.
+
+Definition chk_tjoin (c : jconf) (tc : string * string * N) : bool :=
+  let '(a, b, code) := tc in
+  match explicit_tjoin c a b with
+  | TJInvalid => N.eqb code 2
+  | TJConnect => N.eqb code 0
+  | TJNotTemporal => false
   end.
